@@ -20,7 +20,9 @@ def _ipde():
 
 
 def AnyStreamG():
-    return Obj("harness.tzio:AnyStream", {"left": Int(0, None)})
+    from specs.tzio_models import StreamBytes
+
+    return Obj("harness.tzio:AnyStream", {"left": Int(0, None), "pos": Const(0), "data": Const(StreamBytes())})
 
 
 def _setup(eng):
@@ -30,7 +32,7 @@ def _setup(eng):
 
 
 def _mk(which, name, rng, max_bytes):
-    @contract(H + "read_prim", "C20", name=f"reader.{name} on any byte stream: value in range or InvalidPyodaDataError; consumes at most the bytes present")
+    @contract(H + "read_prim", "C20", *(("C06",) if which == 5 else ()), name=f"reader.{name} on any byte stream: value in range or InvalidPyodaDataError; consumes at most the bytes present")
     def _(c):
         c.arg("stream", AnyStreamG()).arg("which", Const(which))
         c.setup = _setup
@@ -41,7 +43,7 @@ def _mk(which, name, rng, max_bytes):
         fn = "pyoda_time.time_zones.io._date_time_zone_reader:_DateTimeZoneReader.__read_varint"
         # loop invariant of the varint loop; variant = bytes left in the stream (each iteration consumes one byte or raises)
         c.loop(fn, 0, lambda v, a: And(v.ret >= 0, v.shift >= 0), variant=lambda v, a: V.fld(V.fld(v.self, "_DateTimeZoneReader__input"), "left"))
-        c.returns(lambda a, r: And(rng(r[0]), r[1] >= 0, r[1] <= V.fld(a.stream, "left"), (r[1] <= max_bytes) if max_bytes else True))
+        c.returns(lambda a, r: And(rng(r[0]) if which != 5 else rng(r[0], a), r[1] >= 0, r[1] <= V.fld(a.stream, "left"), (r[1] <= max_bytes) if max_bytes else True))
         c.raises(_ipde())
 
 
@@ -50,7 +52,8 @@ _mk(1, "read_signed_count", lambda v: True, None)
 _mk(2, "read_milliseconds", lambda v: And(v >= -MPD, v < 2**31), 4)
 _mk(3, "read_byte", lambda v: And(v >= 0, v <= 255), 1)
 _mk(4, "__read_int64", lambda v: And(v >= -(2**63), v < 2**63), 8)
-_mk(5, "has_more_data", lambda v: True, 1)
+# has_more_data answers "is there another byte", whatever that byte's value is (a zero byte is data)
+_mk(5, "has_more_data", lambda v, a: (V.fld(a.stream, "left") > 0) if v is True else (V.fld(a.stream, "left") == 0) if v is False else Iff(v, V.fld(a.stream, "left") > 0), 1)
 
 
 # ------------------------------------------------------------------------------------------ the loading boundary
@@ -154,3 +157,111 @@ def _(c):
 
     c.returns(post, when=allp)
     c.raises(_ipde(), when=lambda a: not allp(a))
+
+
+# ------------------------------------------------------------------------------------------ composite readers
+def _mk_transition(label, prev_gen, short=False):
+    """short=False: any stream, the varint loop by its invariant (shifts by a symbolic amount are abstracted, so a
+    failed proof has no bit-exact model).  short=True: every stream of at most 5 bytes with the loop executed
+    completely -- bit-exact, so a counter-model is a real byte string that is replayed on the real reader."""
+    scope = "any byte stream of at most 5 bytes (loop executed completely, bit-exact)" if short else "any byte stream"
+
+    @contract(H + "read_transition", "C20", name=f"reader.read_zone_interval_transition({label}) on {scope}: an instant (or end-of-time marker), or one of the errors the loading boundary translates; never any other exception")
+    def _(c):
+        from .gens import InstantAnyG
+
+        c.arg("stream", AnyStreamG()).arg("previous", prev_gen() if prev_gen else Const(None))
+        c.setup = _setup
+        c.crosscheck = 0
+        c.allow_mutation = lambda obj, n: True
+        c.pure = False
+        fn = "pyoda_time.time_zones.io._date_time_zone_reader:_DateTimeZoneReader.__read_varint"
+        if short:
+            c.requires(lambda a: V.fld(a.stream, "left") <= 5)
+            c.max_paths = 20000
+        else:
+            c.loop(fn, 0, lambda v, a: And(v.ret >= 0, v.shift >= 0), variant=lambda v, a: V.fld(V.fld(v.self, "_DateTimeZoneReader__input"), "left"))
+        c.returns(lambda a, r: And(V.isinst(r[0], "Instant"), r[1] >= 1, r[1] <= V.fld(a.stream, "left")))
+        # exactly the types _TzdbStreamData.__DATA_ERRORS turns into InvalidPyodaDataError at create_zone / _from_stream
+        c.raises(_ipde(), OverflowError, ValueError)
+        _ = InstantAnyG
+
+
+def _prev_any():
+    from .gens import InstantAnyG
+
+    return InstantAnyG()
+
+
+for _short in (False, True):
+    _mk_transition("no previous transition", None, _short)
+    _mk_transition("previous = any instant or marker", _prev_any, _short)
+
+
+# ------------------------------------------------------------------------------------------ the zone-creation boundary
+def _zone_boundary_setup(eng):
+    """Inside create_zone every reader call may return or raise any of the error types damaged data is known to
+    produce; the contract says that only the documented error leaves."""
+    from pyvc import sym
+    from pyvc.values import ExcValue, PyRaise
+    from pyoda_time.time_zones._cached_date_time_zone import _CachedDateTimeZone as CZ
+    from pyoda_time.time_zones._fixed_date_time_zone import _FixedDateTimeZone as FZ
+    from pyoda_time.time_zones._precalculated_date_time_zone import _PrecalculatedDateTimeZone as PZ
+    from pyoda_time.time_zones.io._date_time_zone_reader import _DateTimeZoneReader as R
+    from pyoda_time.utility import InvalidPyodaDataError
+
+    kinds = LEAKS + (InvalidPyodaDataError,)
+
+    def may_raise(eng, tag):
+        which = sym.fresh_int(f"outcome_{tag}")
+        eng.assume(And(which >= 0, which <= len(kinds)))
+        i = eng.choose([sym.SBool.lift(which == k) for k in range(len(kinds) + 1)], "inner-outcome")
+        if i < len(kinds):
+            raise PyRaise(ExcValue(kinds[i], (), f"model:{tag}"))
+
+    def read_string(eng, self_):
+        may_raise(eng, "read_string")
+        return "X"
+
+    def read_byte(eng, self_):
+        may_raise(eng, "read_byte")
+        b = sym.fresh_int("zone_type")
+        eng.assume(And(b >= 0, b <= 255))
+        return b
+
+    def read_zone(tag):
+        def m(eng, *a):
+            may_raise(eng, tag)
+            from pyoda_time import DateTimeZone
+
+            return DateTimeZone.utc
+
+        return m
+
+    eng.func_models[vars(R)["read_string"]] = read_string
+    eng.func_models[vars(R)["read_byte"]] = read_byte
+    eng.func_models[vars(FZ)["read"].__func__] = read_zone("_FixedDateTimeZone.read")
+    eng.func_models[vars(PZ)["_read"].__func__] = read_zone("_PrecalculatedDateTimeZone._read")
+    eng.func_models[vars(CZ)["_for_zone"].__func__] = read_zone("_CachedDateTimeZone._for_zone")
+
+
+class _Field:
+    def _create_stream(self):
+        return io.BytesIO(b"")
+
+
+def _mk_create_zone(label, fields, min_obl):
+    @contract(SD + "create_zone", "C20", name=f"_TzdbStreamData.create_zone ({label}): whatever damaged data makes the lookups and readers raise, only InvalidPyodaDataError leaves")
+    def _(c):
+        c.arg("self", Obj("pyoda_time.time_zones.io._tzdb_stream_data:_TzdbStreamData", {"_TzdbStreamData__zone_fields": Const(fields), "_TzdbStreamData__string_pool": Const(lambda: ("UTC",))}))
+        c.arg("id_", Const("Alias/Id")).arg("canonical_id", Const("Some/Zone"))
+        c.setup = _zone_boundary_setup
+        c.crosscheck = 0
+        c.replayable = False
+        c.returns(lambda a, r: True)
+        c.raises(_ipde())
+        c.min_obligations = min_obl
+
+
+_mk_create_zone("the alias map names a zone that has no data field", lambda: {}, 1)
+_mk_create_zone("zone data present", lambda: {"Some/Zone": _Field()}, 2)
